@@ -891,7 +891,7 @@ func (fr *frame) selectInstr(in *ssa.Select) Value {
 			if s.ch == nil {
 				continue
 			}
-			if len(s.ch.Buf) > 0 || s.ch.Closed || (s.ch.Ticker && e.ticks > 0) {
+			if len(s.ch.Buf) > 0 || s.ch.Closed || (e.tickReady(s.ch)) {
 				ready = append(ready, i)
 			}
 		}
@@ -953,7 +953,7 @@ func (e *Engine) chanRecv(ch *Chan, t types.Type, commaOk bool) (Value, bool) {
 			ch.Buf = ch.Buf[1:]
 			return v, true
 		}
-		if ch.Ticker && e.ticks > 0 {
+		if e.tickReady(ch) {
 			e.ticks--
 			zt := t
 			if commaOk {
